@@ -173,7 +173,30 @@ class Setup:
             self.observers = arr if np.random.default_rng(sc["L"]).random() < 0.5 else self.observers + [arr]
             if isinstance(self.observers, list):
                 self.kw["pixel_agg"] = "mean"
-        if fault == "functional_readonly":
+        if fault == "functional_readonly" and sc["fire_at"] >= 3:
+            # every class of the functional interface with per-instance (n,..) float64 arrays
+            from vfw.props import c07
+
+            r = np.random.default_rng(sc["L"] * 7 + sc["fire_at"])
+            cls = str(r.choice(list(c07.PARAMS)))
+            inst = []
+            base = objs.rand_source(r, cls)
+            for _ in range(3):
+                x = objs.rand_source(r, cls)
+                if cls == "Polyline":
+                    x["vertices"] = r.normal(size=(len(base["vertices"]), 3)).tolist()
+                if cls == "TriangularMesh":
+                    x["vertices"], x["faces"] = base["vertices"], base["faces"]
+                inst.append(x)
+            kwf = {k: np.array(v, dtype=float) for k, v in c07.func_kwargs(cls, inst, False).items()}
+            kwf["position"] = np.array([x["position"][0] for x in inst], dtype=float)
+            obs_f = r.normal(size=(3, 3)) * 3
+            self.func_call = (cls, obs_f, kwf)
+            self.arrays = [obs_f] + list(kwf.values())
+            if sc["fire_at"] % 2:
+                for a in self.arrays:
+                    a.flags.writeable = False
+        elif fault == "functional_readonly":
             v = np.random.default_rng(sc["L"]).normal(size=(4, 4, 3))
             v[:, 3] += 2  # non-degenerate; random chirality so check_chirality has work to do
             o = np.random.default_rng(1).normal(size=(4, 3)) * 3
@@ -187,6 +210,9 @@ class Setup:
     def call(self):
         import magpylib as magpy
 
+        if self.sc["fault"] == "functional_readonly" and getattr(self, "func_call", None):
+            cls, o, kwf = self.func_call
+            return getattr(magpy, "get" + ("B" if cls in ("Circle", "Polyline", "Dipole") and self.F in "JM" else self.F))(cls, o, **kwf)
         if self.sc["fault"] == "functional_readonly":
             v, o, p = self.arrays
             return getattr(magpy, "get" + self.F)("Tetrahedron", o, vertices=v, polarization=p)
